@@ -34,9 +34,14 @@ def step(ctx, cfg):
     H = [[ctx.hashval(f"h{q}_{i}", m) for i in range(k)] for q in range(K)]
     Tc = [ctx.int(f"true{q}", 0, 2 ** 20) for q in range(K)]
     pos = [[H[q][i] % m for i in range(k)] for q in range(K)]
-    for col in range(m):
-        c._bloom[col] = _cell(ctx, pos, Tc, col)
-    c.elements_added = ctx.sum(Tc)
+    if ctx.sym:
+        for col in range(m):
+            c._bloom[col] = _cell(ctx, pos, Tc, col)
+        c.elements_added = ctx.sum(Tc)
+    else:       # replay: the pre-state is re-created through the public API (one add per key with its true count)
+        for q in range(K):
+            if Tc[q] > 0:
+                c.add_alt(H[q], Tc[q])
     n = ctx.int("n", 1, 2 ** 20)
     pre, pre_total = env.cells(c._bloom), c.elements_added
     if op == "add":
